@@ -272,6 +272,8 @@ def observe(cfg, with_build=True):
       'oa_all': oa_proto(cfg, include_defaults=True, include_unset=True),
       'dir': d,
       'build': real_build(cfg) if with_build else None,
+      'args_real': [[k, to_proto(v)] for k, v in cfg.__arguments__.items()],
+      'locs': [[e.param_name, e.location.filename, e.location.function_name] for e in entries],
       'hist': [[e.param_name, hval_proto(e)] for e in entries],
       'seqs': [e.sequence_id for e in entries],
       'tags': sorted(([k, sorted(targets.tag_no(t) for t in ts)]
@@ -303,6 +305,17 @@ def real_step(cfg, op):
       del cfg[op[1]]
     elif name == 'delslice':
       del cfg[slice_py(op[1], cfg)]
+    elif name == 'addtag':
+      fdl.add_tag(cfg, op[1], targets.TAGS[op[2]])
+    elif name == 'removetag':
+      fdl.remove_tag(cfg, op[1], targets.TAGS[op[2]])
+    elif name == 'cleartags':
+      fdl.clear_tags(cfg, op[1])
+    elif name == 'settags':
+      fdl.set_tags(cfg, op[1], [targets.TAGS[t] for t in op[2]])
+    elif name == 'materialize':
+      from fiddle._src import materialize
+      materialize.materialize_defaults(cfg)
     elif name == 'suspend':
       fdl_history.set_tracking(False)
     elif name == 'resume':
@@ -374,3 +387,35 @@ def diff_fields(real, model, fields):
       diffs.append((f'step{i}', 'res', rs['res'], ms['res']))
     cmp(f'step{i}', rs['state'], ms['state'])
   return diffs
+
+
+def gen_tag_ops(r, sig, fresh, n_ops):
+  """Edit histories for C16/C14: the ops of C03 interleaved with tag edits, TaggedValue
+  assignments, materialize_defaults and tracking switches."""
+  named = [p[0] for p in sig]
+  P = len([p for p in sig if p[1] in ('po', 'pk')])
+  has_vp = any(p[1] == 'vp' for p in sig)
+  ops = []
+  for _ in range(n_ops):
+    x = r.random()
+    if x < 0.45:
+      ops += gen_ops(r, sig, fresh, 1, with_tracking=True, allow_tv=True)
+      continue
+    if r.random() < 0.5 and named:
+      key = r.choice(named + ['x'])
+    else:
+      key = r.randint(-1, P + (2 if has_vp else 0))
+    t = r.randrange(len(targets.TAGS))
+    if x < 0.62:
+      ops.append(['addtag', key, t])
+    elif x < 0.72:
+      ops.append(['removetag', key, t])
+    elif x < 0.78:
+      ops.append(['cleartags', key])
+    elif x < 0.88:
+      ops.append(['settags', key, r.sample(range(len(targets.TAGS)), r.randint(0, 3))])
+    elif x < 0.93:
+      ops.append(['materialize'])
+    else:
+      ops.append([r.choice(['suspend', 'resume'])])
+  return ops
